@@ -20,7 +20,7 @@ from typing import Any, Dict, List
 VERIF = os.path.dirname(os.path.dirname(os.path.abspath(__file__)))
 REPO = os.environ.get('SA_REPO', '/repo')
 SEEDED = os.path.join(VERIF, 'seeded')
-ALL = [f'C{i:02d}' for i in range(1, 34) if i != 30]
+ALL = [f'C{i:02d}' for i in range(1, 34)]
 
 
 def run_one(item: Dict[str, Any]) -> Dict[str, Any]:
